@@ -113,3 +113,70 @@ pub fn normalise(stdout: &str) -> Vec<String> {
         })
         .collect()
 }
+
+/// Interactive session with the engine (real time): lines are sent one at a time and the
+/// moment each output line arrives is recorded. Used only for the coarse real-clock part of C07.
+pub struct Session {
+    child: std::process::Child,
+    stdin: Option<std::process::ChildStdin>,
+    rx: std::sync::mpsc::Receiver<(String, Instant)>,
+}
+
+impl Session {
+    pub fn start(exe: &str) -> Result<Session, String> {
+        let mut cmd = Command::new(exe);
+        cmd.stdin(Stdio::piped()).stdout(Stdio::piped()).stderr(Stdio::null());
+        cmd.env_remove("FLOUNDER_VERIF_NODE_CLOCK").env_remove("FLOUNDER_VERIF_ZSEED");
+        let mut child = cmd.spawn().map_err(|e| format!("cannot start {}: {}", exe, e))?;
+        let stdin = child.stdin.take();
+        let stdout = child.stdout.take().unwrap();
+        let (tx, rx) = std::sync::mpsc::channel();
+        std::thread::spawn(move || {
+            use std::io::BufRead;
+            let r = std::io::BufReader::new(stdout);
+            for line in r.lines() {
+                match line {
+                    Ok(l) => {
+                        if tx.send((l, Instant::now())).is_err() {
+                            break;
+                        }
+                    }
+                    Err(_) => break,
+                }
+            }
+        });
+        Ok(Session { child, stdin, rx })
+    }
+
+    pub fn send(&mut self, line: &str) {
+        if let Some(s) = self.stdin.as_mut() {
+            let _ = s.write_all(line.as_bytes());
+            let _ = s.write_all(b"\n");
+            let _ = s.flush();
+        }
+    }
+
+    /// Waits for a line with this prefix; None on timeout or end of output.
+    pub fn wait_for(&mut self, prefix: &str, timeout: Duration) -> Option<(String, Instant)> {
+        let deadline = Instant::now() + timeout;
+        loop {
+            let left = deadline.checked_duration_since(Instant::now())?;
+            match self.rx.recv_timeout(left) {
+                Ok((l, t)) => {
+                    if l.starts_with(prefix) {
+                        return Some((l, t));
+                    }
+                }
+                Err(_) => return None,
+            }
+        }
+    }
+}
+
+impl Drop for Session {
+    fn drop(&mut self) {
+        self.stdin = None;
+        let _ = self.child.kill();
+        let _ = self.child.wait();
+    }
+}
